@@ -92,7 +92,7 @@ def check_ctor(run, objs, props, rows, tag):
 
 def corrupt_dict(rng, d):
     d = copy.deepcopy(d)
-    k = rng.randrange(16)
+    k = rng.randrange(17)
     m = len(d.get('properties', ()))
     ctxrows = d.get('context')
     if k == 0:
@@ -129,8 +129,19 @@ def corrupt_dict(rng, d):
     elif k == 14 and ctxrows:
         l = [list(r) for r in ctxrows]
         r = l[rng.randrange(len(l))]
-        if r:
-            r[rng.randrange(len(r))] += rng.choice([1, -1, m])
+        ints = [k_ for k_, x in enumerate(r) if isinstance(x, int)]
+        if ints:
+            r[rng.choice(ints)] += rng.choice([1, -1, m])
+        d['context'] = l
+    elif k == 16 and ctxrows:
+        # an index of the wrong type among (or instead of) the column numbers
+        l = [list(r) for r in ctxrows]
+        r = l[rng.randrange(len(l))]
+        bad = rng.choice(['0', '1', None, 'x', (0,)])
+        if r and rng.random() < .5:
+            r[rng.randrange(len(r))] = bad
+        else:
+            r.insert(rng.randrange(len(r) + 1), bad)
         d['context'] = l
     else:
         d['objects'] = []
@@ -149,7 +160,8 @@ def dict_request(d, require):
     elif not rows:
         rs = '-'
     else:
-        rs = '/'.join(','.join(map(str, r)) if r else '.' for r in rows)
+        # an index that is not an int is for the model an index that is out of range (both are rejected with ValueError)
+        rs = '/'.join(','.join(str(x) if isinstance(x, int) and not isinstance(x, bool) else '999999' for x in r) if r else '.' for r in rows)
     if 'lattice' not in d:
         lat = 'absent'
     elif d['lattice'] is None:
@@ -168,7 +180,8 @@ def check_dict(run, dd, tag, stale_lattice=False):
     ignore = True if stale_lattice else run.rng.random() < .3
     req = dict_request(dd, require)
     want = run.driver.ask(req)
-    res = outcome(lambda: concepts.Context.fromdict(copy.deepcopy(dd), require_lattice=require, ignore_lattice=ignore))
+    raw = run.rng.random() < .3
+    res = outcome(lambda: concepts.Context.fromdict(copy.deepcopy(dd), require_lattice=require, ignore_lattice=ignore, raw=raw))
     run.case(req, True, {'call': 'Context.fromdict(%r, require_lattice=%r)' % ({k: v for k, v in dd.items() if k != 'lattice'}, require),
                          'corruption': tag, 'outcome': res[0]})
     run.count('fromdict ' + res[0])
